@@ -10,13 +10,16 @@ wt=$(mktemp -d /tmp/vseed.XXXXXX)
 base=${BASE:-HEAD}
 git -C /repo worktree add -q --detach "$wt" "$base" || exit 2
 if ! git -C "$wt" apply --check "$out/patch.diff" 2>/dev/null; then
-  # the seed was written against an earlier tree: fall back to the commit before the try/finally re-indentation
-  git -C /repo worktree remove --force "$wt"; base=e019c9f^; git -C /repo worktree add -q --detach "$wt" "$base" || exit 2
+  # the seed was written against an earlier tree: fall back to the tree of round 4 / rounds 1-2 (before later fix commits)
+  for fb in 151f69a e019c9f^; do
+    git -C /repo worktree remove --force "$wt"; base=$fb; git -C /repo worktree add -q --detach "$wt" "$base" || exit 2
+    git -C "$wt" apply --check "$out/patch.diff" 2>/dev/null && break
+  done
 fi
 export PYTHONPATH="$wt" PYTHONDONTWRITEBYTECODE=1
 # demos may hard-code the worktree they were written in: run a copy with that path replaced by the scratch worktree
 mkdir -p "$wt/seed"
-sed -E "s#/tmp/seed2?/C[0-9]+#$wt#g" "$out/demo.py" > "$wt/seed/demo_run.py"
+sed -E "s#/tmp/seed[0-9]?/C[0-9]+#$wt#g" "$out/demo.py" > "$wt/seed/demo_run.py"
 ( cd "$wt" && timeout 600 /venv/bin/python "$wt/seed/demo_run.py" >"$out/demo_unmodified.log" 2>&1 ); d0=$?
 if ! git -C "$wt" apply "$out/patch.diff" 2>"$out/apply.log"; then echo "$name: PATCH DOES NOT APPLY"; git -C /repo worktree remove --force "$wt"; exit 2; fi
 ( cd "$wt" && timeout 600 /venv/bin/python "$wt/seed/demo_run.py" >"$out/demo_modified.log" 2>&1 ); d1=$?
